@@ -1,6 +1,6 @@
 """Property -> clauses -> rule instances.  Each check_Cxx fills a Report; it never prints."""
 from .model import AnalysisError
-from .rules import twin, effect, work, feedback, models, misc, state
+from .rules import twin, effect, work, feedback, models, misc, state, fresh
 
 ALG = ['dfa_algorithms', 'nfa_algorithms', 'pda_algorithms', 'tm_algorithms', 'cfg_algorithms', 'regexp_algorithms']
 
@@ -76,9 +76,49 @@ def check_C04(ctx, rep):
     _effect_on(ctx, rep, ['dfa_algorithms.dfa_minimize', 'dfa_algorithms.dfa_from_table', 'dfa_algorithms.dfa_quotient', 'dfa_algorithms.dfa_hopfcroft'])
 
 
+def _fresh_in(ctx, rep, specs, providers=()):
+    n = 0
+    for sp in providers:
+        fresh.check_provider(ctx, rep, ctx.prog.func(sp))
+    for sp in specs:
+        f = ctx.prog.func(sp)
+        for g in [f] + list(f.nested.values()):
+            n += fresh.check_introductions(ctx, rep, g)
+        fresh.check_request_order(ctx, rep, f)
+    return n
+
+
+def _eps_in(ctx, rep, specs):
+    n = 0
+    for sp in specs:
+        f = ctx.prog.func(sp)
+        n += fresh.check_eps(ctx, rep, f)
+    return n
+
+
+def check_C06(ctx, rep):
+    rep.clauses_decided += ['state names of one translation come from one private generator or a fresh-name provider (R-FRESH)',
+                            'GNFA start/accept states are fresh (R-FRESH)', 'epsilon consistency of the building blocks (R-EPS)',
+                            'building blocks do not touch their operands (R-EFFECT)']
+    rep.not_decided += ['language equality for all expressions and all elimination orders']
+    n = _fresh_in(ctx, rep, ['regexp_algorithms.dfa_to_gnfa', 'nfa_algorithms.nfa_union', 'nfa_algorithms.nfa_repetition', 'nfa_algorithms.nfa_concatenation',
+                             'regexp_algorithms.RegexpToNFAGenerator.generate_symbol', 'regexp_algorithms.RegexpToNFAGenerator.generate_zero',
+                             'regexp_algorithms.RegexpToNFAGenerator.generate_one'],
+                  providers=['dfa_algorithms.fresh_state', 'nfa_algorithms._fresh_nfa_state'])
+    if n < 4:
+        raise AnalysisError('fewer than 4 name-introduction sites found for C06')
+    _eps_in(ctx, rep, ['nfa_algorithms.nfa_union', 'nfa_algorithms.nfa_repetition', 'nfa_algorithms.nfa_concatenation',
+                       'regexp_algorithms.RegexpToNFAGenerator.generate_symbol', 'regexp_algorithms.RegexpToNFAGenerator.generate_zero',
+                       'regexp_algorithms.RegexpToNFAGenerator.generate_one'])
+    fresh.check_eps_translation(ctx, rep, ctx.prog.func('nfa_algorithms._add_nfa_transitions'))
+    _effect_on(ctx, rep, ['regexp_algorithms.regexp_to_nfa', 'regexp_algorithms.dfa_to_gnfa', 'regexp_algorithms.dfa_to_regexp',
+                          'nfa_algorithms.nfa_union', 'nfa_algorithms.nfa_repetition', 'nfa_algorithms.nfa_concatenation'])
+
+
 def check_C08(ctx, rep):
     rep.clauses_decided += ['pure twins deep-copy, call the in-place phase and return the copy (R-TWIN)', 'input grammar untouched (R-EFFECT)',
-                            'nullable and unit-closure sets are saturated (R-WORK W5)']
+                            'nullable and unit-closure sets are saturated (R-WORK W5)',
+                            'every introduced variable comes from the provider, is added to V before the next request, and the provider returns only names outside V on every path (R-FRESH)']
     rep.not_decided += ['language preservation and postcondition establishment of each phase']
     _twins(ctx, rep, ['cfg_to_chomsky', 'cfg_remove_epsilon_rules', 'cfg_eliminate_unit_rules', 'cfg_add_new_start_variable',
                       'cfg_make_rules_of_length_two', 'cfg_eliminate_terminals'])
@@ -86,6 +126,10 @@ def check_C08(ctx, rep):
         raise AnalysisError('nullable fixpoint loop vanished')
     if not work.check_snapshot_fixpoint(ctx, rep, ctx.prog.func('cfg_algorithms.cfg_derivable_variables')):
         raise AnalysisError('unit-closure fixpoint loop vanished')
+    n = _fresh_in(ctx, rep, ['cfg_algorithms.cfg_add_new_start_variable_in_place', 'cfg_algorithms.cfg_make_rules_of_length_two_in_place',
+                             'cfg_algorithms.cfg_eliminate_terminals_in_place'], providers=['cfg_algorithms.cfg_fresh_variable'])
+    if n < 3:
+        raise AnalysisError('fewer than 3 variable-introduction sites found for C08')
     _effect_on(ctx, rep, ['cfg_algorithms.cfg_to_chomsky', 'cfg_algorithms.cfg_remove_epsilon_rules', 'cfg_algorithms.cfg_eliminate_unit_rules',
                           'cfg_algorithms.cfg_add_new_start_variable', 'cfg_algorithms.cfg_make_rules_of_length_two',
                           'cfg_algorithms.cfg_eliminate_terminals', 'cfg_algorithms.cfg_nullable_variables', 'cfg_algorithms.cfg_derivable_variables',
@@ -103,9 +147,14 @@ def check_C09(ctx, rep):
 
 
 def check_C10(ctx, rep):
-    rep.clauses_decided += ['pure twins deep-copy and call the in-place normal form (R-TWIN)', 'input PDA not modified (R-EFFECT)']
+    rep.clauses_decided += ['pure twins deep-copy and call the in-place normal form (R-TWIN)', 'input PDA not modified (R-EFFECT)',
+                            'states, bottom marker and dummy symbol are fresh (R-FRESH)']
     rep.not_decided += ['language equality of the normal forms and of the grammar']
     _twins(ctx, rep, ['pda_to_accept_on_empty_stack', 'pda_to_push_pop'])
+    n = _fresh_in(ctx, rep, ['pda_algorithms.pda_to_one_accepting_state_in_place', 'pda_algorithms.pda_to_accept_on_empty_stack_in_place',
+                             'pda_algorithms.pda_to_push_pop_in_place'], providers=['dfa_algorithms.fresh_state', 'pda_algorithms.fresh_symbol'])
+    if n < 6:
+        raise AnalysisError('fewer than 6 name-introduction sites found for C10')
     _effect_on(ctx, rep, ['pda_algorithms.pda_to_cfg', 'pda_algorithms.pda_to_push_pop', 'pda_algorithms.pda_to_accept_on_empty_stack', 'pda_algorithms.pda_is_push_pop'])
 
 
@@ -164,6 +213,8 @@ def check_C14(ctx, rep):
     models.check_no_prefix_edges(ctx, rep, P('dfa_algorithms.dfa_no_prefix'))
     models.check_reachable_restriction(ctx, rep, P('dfa_algorithms.dfa_remove_unreachable_states'))
     models.check_make_total(ctx, rep, P('dfa_algorithms.dfa_make_total_in_place'))
+    _fresh_in(ctx, rep, ['dfa_algorithms.dfa_make_total_in_place', 'dfa_algorithms.dfa_reverse'], providers=['dfa_algorithms.fresh_state'])
+    _eps_in(ctx, rep, ['dfa_algorithms.dfa_reverse', 'dfa_algorithms.dfa_no_prefix'])
     models.check_prefix_helper(ctx, rep, P('language_algorithms.language_no_prefix'))
     models.check_no_extend_helper(ctx, rep, P('language_algorithms.language_no_extend'))
     work.check_level_search(ctx, rep, ctx.prog.func('dfa_algorithms.dfa_reachable_states'))
@@ -193,10 +244,26 @@ def check_C15(ctx, rep):
 
 
 def check_C18(ctx, rep):
-    rep.clauses_decided += ['operands untouched (R-EFFECT a)']
+    rep.clauses_decided += ['operands untouched (R-EFFECT a)', 'the introduced state is fresh for the union of the operand state sets (R-FRESH)',
+                            'the result is built with the epsilon its keys use and operand epsilons are translated (R-EPS)',
+                            'accepting set and alphabet of the result combine both operands as specified (M1)', 'shared default generators inventoried (R-STATE c)']
     rep.not_decided += ['the language identities themselves']
     _effect_on(ctx, rep, ['nfa_algorithms.nfa_union', 'nfa_algorithms.nfa_concatenation', 'nfa_algorithms.nfa_repetition'], shared=False)
     state.check_hidden_state(ctx, rep, modules=['nfa_algorithms', 'identifier_generator'])
+    n = _fresh_in(ctx, rep, ['nfa_algorithms.nfa_union', 'nfa_algorithms.nfa_repetition', 'nfa_algorithms.nfa_concatenation'],
+                  providers=['nfa_algorithms._fresh_nfa_state'])
+    if n < 2:
+        raise AnalysisError('fewer than 2 state-introduction sites found for C18')
+    if _eps_in(ctx, rep, ['nfa_algorithms.nfa_union', 'nfa_algorithms.nfa_repetition', 'nfa_algorithms.nfa_concatenation']) < 3:
+        raise AnalysisError('NFA constructor sites of the building blocks vanished')
+    fresh.check_eps_translation(ctx, rep, ctx.prog.func('nfa_algorithms._add_nfa_transitions'))
+    P = ctx.prog.func
+    U, C, R_ = P('nfa_algorithms.nfa_union'), P('nfa_algorithms.nfa_concatenation'), P('nfa_algorithms.nfa_repetition')
+    two = lambda x: {'A': {'N1.' + x}, 'B': {'N2.' + x}}
+    models.check_set_model(ctx, rep, U, 'NFA', 'F', two('F'), lambda a: a['A'] or a['B'], 'F1 | F2', rule='R-MODEL.M1')
+    models.check_set_model(ctx, rep, U, 'NFA', 'Sigma', two('Sigma'), lambda a: a['A'] or a['B'], 'Sigma1 | Sigma2', rule='R-MODEL.M1')
+    models.check_set_model(ctx, rep, C, 'NFA', 'F', two('F'), lambda a: a['B'], 'F2', rule='R-MODEL.M1')
+    models.check_set_model(ctx, rep, C, 'NFA', 'Sigma', two('Sigma'), lambda a: a['A'] or a['B'], 'Sigma1 | Sigma2', rule='R-MODEL.M1')
 
 
 def check_C19(ctx, rep):
@@ -234,6 +301,6 @@ def check_C20(ctx, rep):
 
 
 REGISTRY = {
-    'C01': check_C01, 'C03': check_C03, 'C04': check_C04, 'C08': check_C08, 'C09': check_C09, 'C10': check_C10,
+    'C01': check_C01, 'C03': check_C03, 'C04': check_C04, 'C06': check_C06, 'C08': check_C08, 'C09': check_C09, 'C10': check_C10,
     'C11': check_C11, 'C12': check_C12, 'C14': check_C14, 'C15': check_C15, 'C18': check_C18, 'C19': check_C19, 'C20': check_C20,
 }
